@@ -149,6 +149,7 @@ class Walker:
         self.max_states = max_states
         self.no_inline = set(no_inline)
         self.force_inline = set(force_inline)
+        self._qual_index: Dict[str, Optional[FuncInfo]] = {}
         self.opaque = opaque  # in deep mode: qualified names that are never looked through (the anchor table)
         self._site = 0
         self._simple_cache: Dict[int, bool] = {}
@@ -203,7 +204,9 @@ class Walker:
 
     def emit(self, st: State, kind: str, node: ast.AST, **d) -> Event:
         e = Event(kind, node, st.frame.func, st.loops, len(st.conds), len(st.stack), d)
-        st.events.append(e)
+        if st.exit is None:
+            # a state that already left (an inlined callee raised while this statement's expression was evaluated) does nothing more
+            st.events.append(e)
         return e
 
     def typeof(self, e: tuple, st: State) -> Optional[ClassInfo]:
@@ -218,6 +221,12 @@ class Walker:
         k = e[0]
         if k == "new":
             return self.prog.classes.get(e[1])
+        if k == "ret":
+            g = self._func_by_any_qual(e[1].split("@")[0])
+            if g is not None:
+                t = func_ret_class(self.prog, g)
+                return self.prog.classes.get(t) if t else None
+            return None
         if k == "p":
             t = self.param_types.get(e[1])
             if t == "<ctx>":
@@ -340,8 +349,9 @@ class Walker:
             return [st]
         out = []
         for s, v in self.ev(n.value, st):
-            self.emit(s, "return", n, value=v)
-            s.exit = ("return", v, n)
+            if s.exit is None:
+                self.emit(s, "return", n, value=v)
+                s.exit = ("return", v, n)
             out.append(s)
         return out
 
@@ -358,8 +368,9 @@ class Walker:
             pairs = self.ev_seq(exc.args, st)
             for s, vals in pairs:
                 v = ("call", ("g", nm), tuple(vals), ())
-                self.emit(s, "raise", n, value=v, exc=nm)
-                s.exit = ("raise", v, n)
+                if s.exit is None:
+                    self.emit(s, "raise", n, value=v, exc=nm)
+                    s.exit = ("raise", v, n)
                 out.append(s)
         else:
             nm = ast.unparse(exc)
@@ -598,6 +609,9 @@ class Walker:
         out = []
         lid = self.site(st, n)
         for s0, dom in self.ev(n.iter, st):
+            if s0.exit is not None:
+                out.append(s0)
+                continue
             if dom[0] in ("tup", "lst") and 0 < len(dom[1]) <= 4 and not n.orelse:
                 # a loop over a short literal sequence is unrolled exactly: no generic iteration, no havoc
                 cur = [s0]
@@ -694,6 +708,8 @@ class Walker:
 
     # ------------------------------------------------------------------ assignment
     def assign(self, t, v, st: State, node, aug=None, addend=None) -> List[State]:
+        if st.exit is not None:
+            return [st]
         if isinstance(t, ast.Name):
             prev = st.env.get(t.id)
             if st.loops and prev is not None and prev != v:
@@ -801,6 +817,8 @@ class Walker:
             return results
         if v[0] == "un" and v[1] == "not" and isinstance(test, ast.Name):
             return [(s2, not t) for s2, t in self.split_value(v[2], s, test)]
+        if s.exit is not None:
+            return [(s, True)]
         v = self.decide(v, s)
         if is_const(v):
             return [(s, bool(v[1]))]
@@ -1192,6 +1210,8 @@ class Walker:
         return out
 
     def do_call(self, fn, args, kwargs, st: State, node) -> List[Tuple[State, tuple]]:
+        if st.exit is not None:
+            return [(st, ("unk", "raised"))]
         k = fn[0]
         site = self.site(st, node)
         if k == "bm":
@@ -1263,6 +1283,20 @@ class Walker:
                   mutates=False, result=v, fn=fn)
         return [(st, v)]
 
+    def _func_by_any_qual(self, qual: str) -> Optional[FuncInfo]:
+        if qual not in self._qual_index:
+            hit = None
+            for m in self.prog.modules.values():
+                for f in m.functions.values():
+                    if f.qualname == qual:
+                        hit = f
+            for c in self.prog.classes.values():
+                for f in c.methods.values():
+                    if f.qualname == qual:
+                        hit = f
+            self._qual_index[qual] = hit
+        return self._qual_index[qual]
+
     def _func_by_qual(self, qual: str, st: State) -> Optional[FuncInfo]:
         for m in self.prog.modules.values():
             for f in m.functions.values():
@@ -1274,6 +1308,8 @@ class Walker:
         return None
 
     def generic_mcall(self, recv, name, args, kwargs, st: State, node):
+        if st.exit is not None:
+            return [(st, ("unk", "raised"))]
         mut = name in MUTATING or name in IO_MUTATING or name not in READONLY
         v = ("call", ("m", recv, name), tuple(args), tuple(sorted(kwargs.items())))
         self.emit(st, "call", node, name=name, target=None, recv=recv, args=args, kwargs=kwargs, inlined=False,
@@ -1283,6 +1319,8 @@ class Walker:
         return [(st, v)]
 
     def construct(self, cls: ClassInfo, args, kwargs, st: State, node):
+        if st.exit is not None:
+            return [(st, ("unk", "raised"))]
         site = self.site(st, node)
         obj = ("new", cls.name, site)
         init = cls.find_method("__init__")
@@ -1325,6 +1363,8 @@ class Walker:
         return self._simple_cache[k]
 
     def call_func(self, f: FuncInfo, recv, args, kwargs, st: State, node, name="", force=False):
+        if st.exit is not None:
+            return [(st, ("unk", "raised"))]
         K = None
         if f.cls is not None:
             if recv is not None and recv[0] == "cls":
@@ -1534,6 +1574,65 @@ def setter_alias(f: FuncInfo) -> Optional[str]:
 _FIELD_CLASS_CACHE: Dict[int, dict] = {}
 
 
+_RET_CLASS_CACHE: Dict[tuple, Optional[str]] = {}
+
+
+def func_ret_class(prog: Program, f: FuncInfo, _busy=None) -> Optional[str]:
+    """the program class every `return` of f constructs (directly, through a local, or through another such function), or the
+    class its return annotation names"""
+    key = (id(prog), f.qualname)
+    if key in _RET_CLASS_CACHE:
+        return _RET_CLASS_CACHE[key]
+    _busy = _busy or set()
+    if f.qualname in _busy:
+        return None
+    _busy = _busy | {f.qualname}
+    out: Optional[str] = None
+    rets = [n for n in ast.walk(f.node) if isinstance(n, ast.Return) and n.value is not None]
+    local_new: Dict[str, str] = {}
+    for n in ast.walk(f.node):
+        if isinstance(n, ast.Assign) and len(n.targets) == 1 and isinstance(n.targets[0], ast.Name) and isinstance(n.value, ast.Call):
+            cn = call_class(prog, f.cls, n.value, _busy)
+            if cn:
+                local_new[n.targets[0].id] = cn
+    kinds = set()
+    for r in rets:
+        v = r.value
+        if isinstance(v, ast.Call):
+            kinds.add(call_class(prog, f.cls, v, _busy))
+        elif isinstance(v, ast.Name):
+            kinds.add(local_new.get(v.id))
+        else:
+            kinds.add(None)
+    if rets and len(kinds) == 1 and None not in kinds:
+        out = next(iter(kinds))
+    if out is None and f.node.returns is not None:
+        a = f.node.returns
+        nm = a.id if isinstance(a, ast.Name) else a.value if isinstance(a, ast.Constant) and isinstance(a.value, str) else None
+        if nm in prog.classes:
+            out = nm
+    _RET_CLASS_CACHE[key] = out
+    return out
+
+
+def call_class(prog: Program, cls: Optional[ClassInfo], call: ast.Call, _busy=None) -> Optional[str]:
+    """class of the object a call expression yields: K(...), self.helper() / cls.helper() / helper() returning a K"""
+    fn = call.func
+    if isinstance(fn, ast.Name):
+        if fn.id in prog.classes:
+            return fn.id
+        for m in prog.modules.values():
+            g = m.functions.get(fn.id)
+            if g is not None:
+                return func_ret_class(prog, g, _busy)
+        return None
+    if isinstance(fn, ast.Attribute) and isinstance(fn.value, ast.Name) and fn.value.id in ("self", "cls") and cls is not None:
+        g = cls.find_method(mangle(cls.name, fn.attr))
+        if g is not None and g.kind != "property":
+            return func_ret_class(prog, g, _busy)
+    return None
+
+
 def _field_tables(prog: Program) -> dict:
     k = id(prog)
     if k in _FIELD_CLASS_CACHE:
@@ -1544,22 +1643,25 @@ def _field_tables(prog: Program) -> dict:
         for f in list(c.methods.values()) + list(c.setters.values()):
             local_new: Dict[str, str] = {}
             for n in ast.walk(f.node):
-                if isinstance(n, ast.Assign) and len(n.targets) == 1 and isinstance(n.value, ast.Call) \
-                        and isinstance(n.value.func, ast.Name) and n.value.func.id in prog.classes:
+                if isinstance(n, ast.Assign) and len(n.targets) == 1 and isinstance(n.value, ast.Call):
+                    cn = call_class(prog, c, n.value)
+                    if cn is None:
+                        continue
                     t = n.targets[0]
                     if isinstance(t, ast.Name):
-                        local_new[t.id] = n.value.func.id
+                        local_new[t.id] = cn
                     elif isinstance(t, ast.Attribute) and isinstance(t.value, ast.Name) and t.value.id == "self":
-                        direct[(c.name, mangle(c.name, t.attr))] = n.value.func.id
-                if isinstance(n, ast.AnnAssign) and isinstance(n.value, ast.Call) and isinstance(n.value.func, ast.Name) \
-                        and n.value.func.id in prog.classes and isinstance(n.target, ast.Attribute):
-                    direct[(c.name, mangle(c.name, n.target.attr))] = n.value.func.id
+                        direct[(c.name, mangle(c.name, t.attr))] = cn
+                if isinstance(n, ast.AnnAssign) and isinstance(n.value, ast.Call) and isinstance(n.target, ast.Attribute):
+                    cn = call_class(prog, c, n.value)
+                    if cn is not None:
+                        direct[(c.name, mangle(c.name, n.target.attr))] = cn
             for n in ast.walk(f.node):
                 if isinstance(n, ast.Call) and isinstance(n.func, ast.Attribute) and n.func.attr == "append" and n.args:
                     a = n.args[0]
                     cn = None
-                    if isinstance(a, ast.Call) and isinstance(a.func, ast.Name) and a.func.id in prog.classes:
-                        cn = a.func.id
+                    if isinstance(a, ast.Call):
+                        cn = call_class(prog, c, a)
                     elif isinstance(a, ast.Name) and a.id in local_new:
                         cn = local_new[a.id]
                     if cn is None:
